@@ -123,6 +123,8 @@ def shared_pal(rng, thorough, which):
         pal[0] = (pal[0][0], rng.randrange(4, 7)) + pal[0][2:]
       if not any(p_[3] >= 2 for p_ in pal):
         pal[-1] = pal[-1][:3] + (2,) + pal[-1][4:]
+      if not any(p_[4] >= 2 for p_ in pal):  # normalize_qk needs head_dim >= 2 to be observable
+        pal[0] = pal[0][:4] + (2,)
     else:  # 'rnn': (B, T, F, H)
       pal = [(rng.randrange(1, 4), rng.randrange(2, 7), rng.randrange(1, 4), rng.randrange(1, 4)) for _ in range(2 if not thorough else 12)]
       if not any(p_[1] >= 4 for p_ in pal):
@@ -156,8 +158,8 @@ def gen_flip_cases(rng, thorough):
         data = [[10 * b + t + 1 for t in range(T)] for b in range(len(lens))]
         cases.append({'kind': 'flip', 'api': api, 'time_major': tm, 'lens': lens, 'data': data, 'feat': 0, 'nb': 1})
       cases.append({'kind': 'flip', 'api': api, 'time_major': False, 'lens': None, 'data': [[t + 1 for t in range(T)]], 'feat': 0, 'nb': 1})
-  palette = [(rng.randrange(1, 7), rng.randrange(1, 4), rng.choice([0, 0, 1, 2])) for _ in range(5 if not thorough else 40)]
-  for _ in range(80 if not thorough else 1500):
+  palette = [(rng.randrange(1, 7), rng.randrange(1, 4), rng.choice([0, 0, 1, 2])) for _ in range(4 if not thorough else 40)]
+  for _ in range(50 if not thorough else 1500):
     T, B, feat = rng.choice(palette)
     lens = None if rng.random() < 0.15 else [rng.randrange(1, T + 1) for _ in range(B)]
     shape = (B, T) + ((feat,) if feat else ())
@@ -243,7 +245,7 @@ def gen_mask_cases(rng, thorough):
     for n in range(1, 7):
       cases.append({'kind': 'causal-mask', 'api': api, 'n': n, 'B': 1 + n % 2, 'extra': n % 3})
   palette = [(rng.randrange(1, 6), rng.randrange(1, 6), rng.randrange(1, 3)) for _ in range(4 if not thorough else 30)]
-  for _ in range(60 if not thorough else 800):
+  for _ in range(40 if not thorough else 800):
     lq, lk, B = rng.choice(palette)
     cases.append({
       'kind': 'attention-mask', 'api': rng.choice(APIS), 'fn': rng.choice(list(PAIR_FNS)),
@@ -251,7 +253,7 @@ def gen_mask_cases(rng, thorough):
       'k': [[rng.randrange(0, 4) for _ in range(lk)] for _ in range(B)], 'extra': rng.randrange(0, 3),
     })
   palette = [(rng.randrange(1, 5), rng.randrange(1, 5)) for _ in range(3 if not thorough else 16)]
-  for _ in range(80 if not thorough else 1000):
+  for _ in range(50 if not thorough else 1000):
     lq, lk = rng.choice(palette)
     n = rng.randrange(0, 5)
     ms = []
@@ -399,8 +401,8 @@ def np_int_cell(cell, c, x):
 
 def gen_intrnn_cases(rng, thorough):
   cases = []
-  n = 104 if not thorough else 6000
-  npal = 3 if not thorough else 40
+  n = 96 if not thorough else 6000
+  npal = 2 if not thorough else 40
   palette = [(rng.randrange(1, 7), [rng.randrange(1, 4)], rng.randrange(1, 3)) for _ in range(npal)]
   pal2 = [(rng.randrange(3, 6), [2, 2], 1), (rng.randrange(3, 5), rng.choice([[2, 3], [3, 2]]), 1)]
   pal2 += [(rng.randrange(2, 6), [rng.randrange(1, 3), rng.randrange(2, 4)], 1) for _ in range(0 if not thorough else 8)]
@@ -606,7 +608,7 @@ def check_intrnn(ctx, batch, cases):
 def gen_decode_trace_cases(rng, thorough):
   cases = []
   pal = shared_pal(rng, thorough, 'attn')
-  for _ in range(8 if not thorough else 250):
+  for _ in range(6 if not thorough else 250):
     B, T, F, H, D = rng.choice(pal)
     L = T
     user = None
@@ -636,23 +638,68 @@ def _float_tree(tree, seed, scale=0.5):
   return jax.tree_util.tree_unflatten(td, [jnp.asarray(rs.normal(0, scale, np.shape(l)), jnp.float32) for l in leaves])
 
 
-def _mha_params(F, H, D, seed, integer):
-  """Parameters of an attention layer in Linen layout: {query,key,value: {kernel[F,H,D], bias[H,D]}, out: {kernel[H,D,F], bias[F]}}"""
+def _mha_params(F, H, D, seed, integer, qk_norm=False):
+  """Parameters of an attention layer in Linen layout: {query,key,value: {kernel[F,H,D], bias[H,D]}, out: {kernel[H,D,F], bias[F]}};
+  with `qk_norm` also {query_ln, key_ln: {scale[D]}} with distinct non-unit scales (normalize_qk=True). Every parameter
+  is randomised: nothing is left at its (symmetric) initial value."""
   proto = {
     'query': {'kernel': np.zeros((F, H, D)), 'bias': np.zeros((H, D))},
     'key': {'kernel': np.zeros((F, H, D)), 'bias': np.zeros((H, D))},
     'value': {'kernel': np.zeros((F, H, D)), 'bias': np.zeros((H, D))},
     'out': {'kernel': np.zeros((H, D, F)), 'bias': np.zeros((F,))},
   }
-  return _int_tree(proto, seed) if integer else _float_tree(proto, seed)
+  tree = _int_tree(proto, seed) if integer else _float_tree(proto, seed)
+  if qk_norm:
+    rs = np.random.default_rng(seed + 101)
+    tree['query_ln'] = {'scale': jnp.asarray(rs.uniform(0.4, 2.5, (D,)).astype(np.float32))}
+    tree['key_ln'] = {'scale': jnp.asarray(-rs.uniform(0.4, 2.5, (D,)).astype(np.float32))}
+  return tree
 
 
 def _nnx_mha(F, H, D, params, **kw):
-  m = nnx.MultiHeadAttention(num_heads=H, in_features=F, qkv_features=H * D, rngs=nnx.Rngs(0), **kw)
+  qk = 'query_ln' in params
+  m = nnx.MultiHeadAttention(num_heads=H, in_features=F, qkv_features=H * D, normalize_qk=qk, rngs=nnx.Rngs(0), **kw)
   for name in ('query', 'key', 'value', 'out'):
     getattr(m, name).kernel.value = params[name]['kernel']
     getattr(m, name).bias.value = params[name]['bias']
+  if qk:
+    m.query_ln.scale.value = params['query_ln']['scale']
+    m.key_ln.scale.value = params['key_ln']['scale']
   return m
+
+
+def _linen_mha(H, D, params, **kw):
+  return nn.MultiHeadDotProductAttention(num_heads=H, qkv_features=H * D, normalize_qk='query_ln' in params, **kw)
+
+
+def _mha_decode(api, F, H, D, params, xx, step_kw, jitted=None):
+  """feeds xx [B,T,F] one position at a time through the layer with decode=True (max_length = T)"""
+  T = xx.shape[1]
+  outs = []
+  if api == 'linen':
+    dec = _linen_mha(H, D, params, decode=True)
+    cache = dec.init(jax.random.key(0), jnp.asarray(xx))['cache']
+    jitted = {} if jitted is None else jitted
+    if 'step' not in jitted:  # one trace for all steps (and for the paired run)
+      jitted['step'] = jax.jit(lambda c, xt, kw: dec.apply({'params': params, 'cache': c}, xt, mutable=['cache'], **kw))
+    for t in range(T):
+      y, mut = jitted['step'](cache, jnp.asarray(xx[:, t : t + 1]), step_kw(t))
+      cache = mut['cache']
+      outs.append(np.asarray(y))
+  else:
+    dec = _nnx_mha(F, H, D, params, decode=True)
+    dec.init_cache(xx.shape)
+    for t in range(T):
+      outs.append(np.asarray(dec(jnp.asarray(xx[:, t : t + 1]), **step_kw(t))))
+  return np.concatenate(outs, axis=1)
+
+
+def _np_layernorm(v, scale, eps=1e-6):
+  """LayerNorm(use_bias=False) over the last axis, float64"""
+  v = v.astype(np.float64)
+  mean = v.mean(-1, keepdims=True)
+  var = (v * v).mean(-1, keepdims=True) - mean * mean
+  return (v - mean) / np.sqrt(var + eps) * np.asarray(scale, np.float64)
 
 
 def check_decode_trace(ctx, batch, cases):
@@ -939,7 +986,7 @@ def gen_cellstep_cases(rng, thorough):
   for api in APIS:
     for name in cell_names(api):
       for (F, H) in shapes:
-        for rep in range(2 if not thorough else 6):
+        for rep in range(1 if not thorough else 6):
           B = 2
           mk = lambda *sh: np.array([rng.randrange(-2, 3) for _ in range(int(np.prod(sh)))]).reshape(sh).tolist()
           cases.append({'kind': 'cell-step', 'api': api, 'cell': name, 'F': F, 'H': H, 'pseed': rng.randrange(10**6),
@@ -1049,7 +1096,7 @@ def check_cellstep(ctx, batch, cases):
 def gen_cellrnn_cases(rng, thorough):
   cases = []
   pal = shared_pal(rng, thorough, 'rnn')
-  n = 20 if not thorough else 600
+  n = 16 if not thorough else 600
   for i in range(n):
     api = APIS[i % 2]
     names = cell_names(api)
@@ -1306,7 +1353,7 @@ def gen_attn_cases(rng, thorough):
 def _mha_run(api, F, H, D, params, inputs, **kw):
   """inputs: tuple of arrays (q[,k[,v]]); returns the layer output"""
   if api == 'linen':
-    return nn.MultiHeadDotProductAttention(num_heads=H, qkv_features=H * D).apply({'params': params}, *inputs, **kw)
+    return _linen_mha(H, D, params).apply({'params': params}, *inputs, **kw)
   return _nnx_mha(F, H, D, params, decode=False)(*inputs, **kw)
 
 
@@ -1381,7 +1428,7 @@ def gen_decodef_cases(rng, thorough):
       'kind': 'decode-float', 'api': APIS[i % 2], 'B': B, 'T': T, 'F': F, 'H': H, 'D': D, 'pseed': rng.randrange(10**6),
       'x': [[[round(rng.uniform(-1.5, 1.5), 3) for _ in range(F)] for _ in range(T)] for _ in range(B)],
       'user': None if rng.random() < 0.5 else [[[1 if (j == t or rng.random() < 0.7) else 0 for j in range(T)] for _ in range(B)] for t in range(T)],
-      'use_bias': rng.random() < 0.5, 'p': rng.randrange(1, T),
+      'use_bias': rng.random() < 0.5, 'p': rng.randrange(1, T), 'qk_norm': D >= 2 and rng.random() < 0.5,
     })
   return cases
 
@@ -1392,14 +1439,14 @@ def check_decodef(ctx, batch, cases):
     am = attn_mod(api)
     x = np.array(case['x'], np.float32)
     rs = np.random.default_rng(case['pseed'])
-    params = _mha_params(F, H, D, case['pseed'], integer=False)
+    params = _mha_params(F, H, D, case['pseed'], integer=False, qk_norm=case.get('qk_norm', False))
     user = None if case['user'] is None else np.array(case['user'], np.float32)  # [T,B,L]
     bias = rs.normal(0, 1, (T, B, H, T)).astype(np.float32) if case['use_bias'] else None
     p = case['p']
     x2 = x.copy()
     x2[:, p:] = rs.choice(PERT, x2[:, p:].shape)
     ctx.case(case, nontrivial=T >= 2)
-    ctx.count('decode_float', f"{api}{'-mask' if user is not None else ''}{'-bias' if bias is not None else ''}")
+    ctx.count('decode_float', f"{api}{'-mask' if user is not None else ''}{'-bias' if bias is not None else ''}{'-qknorm' if case.get('qk_norm') else ''}")
 
     def step_kw(t):
       kw = {}
@@ -1412,22 +1459,7 @@ def check_decodef(ctx, batch, cases):
     jitted = {}
 
     def decode(xx):
-      outs = []
-      if api == 'linen':
-        dec = nn.MultiHeadDotProductAttention(num_heads=H, qkv_features=H * D, decode=True)
-        cache = dec.init(jax.random.key(0), jnp.asarray(xx))['cache']
-        if 'step' not in jitted:  # one trace for all steps of both paired runs
-          jitted['step'] = jax.jit(lambda c, xt, kw: dec.apply({'params': params, 'cache': c}, xt, mutable=['cache'], **kw))
-        for t in range(T):
-          y, mut = jitted['step'](cache, jnp.asarray(xx[:, t : t + 1]), step_kw(t))
-          cache = mut['cache']
-          outs.append(np.asarray(y))
-      else:
-        dec = _nnx_mha(F, H, D, params, decode=True)
-        dec.init_cache(xx.shape)
-        for t in range(T):
-          outs.append(np.asarray(dec(jnp.asarray(xx[:, t : t + 1]), **step_kw(t))))
-      return np.concatenate(outs, axis=1)
+      return _mha_decode(api, F, H, D, params, xx, step_kw, jitted)
 
     def whole(xx):
       causal4 = am.make_causal_mask(jnp.ones((B, T)))
@@ -1454,12 +1486,13 @@ def check_decodef(ctx, batch, cases):
 def gen_weights_cases(rng, thorough):
   cases = []
   pal = [(rng.randrange(1, 3), rng.randrange(1, 6), rng.randrange(1, 6), rng.randrange(1, 3), rng.randrange(1, 4)) for _ in range(3 if not thorough else 15)]
+  pal[0] = (pal[0][0], max(2, pal[0][1]), max(2, pal[0][1]), pal[0][3], max(2, pal[0][4]))  # square, head_dim >= 2: module / normalize_qk cases
   for i in range(24 if not thorough else 600):
-    B, Lq, Lk, H, D = rng.choice(pal)
+    B, Lq, Lk, H, D = pal[0] if i % 3 == 0 else rng.choice(pal)
     cases.append({
-      'kind': 'attn-weights', 'api': APIS[i % 2], 'B': B, 'Lq': Lq, 'Lk': Lk, 'H': H, 'D': D, 'pseed': rng.randrange(10**6),
+      'kind': 'attn-weights', 'api': APIS[(i // 3) % 2] if i % 3 == 0 else APIS[i % 2], 'B': B, 'Lq': Lq, 'Lk': Lk, 'H': H, 'D': D, 'pseed': rng.randrange(10**6),
       'mask': None if rng.random() < 0.2 else [[[1 if (j == i_ % Lk or rng.random() < 0.6) else 0 for j in range(Lk)] for i_ in range(Lq)] for _ in range(B)],
-      'use_bias': rng.random() < 0.5, 'via_module': rng.random() < 0.4,
+      'use_bias': rng.random() < 0.5, 'via_module': i % 3 == 0, 'qk_norm': D >= 2 and i % 3 == 0 and (i // 3) % 4 < 2,
     })
   return cases
 
@@ -1473,26 +1506,29 @@ def check_weights(ctx, batch, cases):
     bias = rs.normal(0, 1, (B, H, Lq, Lk)).astype(np.float32) if case['use_bias'] else None
     via_module = case['via_module'] and Lq == Lk
     ctx.case(case, nontrivial=mask is not None)
-    ctx.count('attn_weights', f"{api}{'-module' if via_module else ''}{'-mask' if mask is not None else ''}{'-bias' if bias is not None else ''}")
+    ctx.count('attn_weights', f"{api}{'-module' if via_module else ''}{'-qknorm' if via_module and case.get('qk_norm') else ''}{'-mask' if mask is not None else ''}{'-bias' if bias is not None else ''}")
     jm = None if mask is None else jnp.asarray(mask)
     jb = None if bias is None else jnp.asarray(bias)
     if via_module:
       F = 3
-      params = _mha_params(F, H, D, case['pseed'], integer=False)
+      params = _mha_params(F, H, D, case['pseed'], integer=False, qk_norm=case.get('qk_norm', False))
       xin = rs.normal(0, 1, (B, Lq, F)).astype(np.float32)
       kw = {'mask': jm, 'attention_bias': jb, 'sow_weights': True}
 
       def run():
         if api == 'linen':
-          _, st = nn.MultiHeadDotProductAttention(num_heads=H, qkv_features=H * D).apply({'params': params}, jnp.asarray(xin), mutable=['intermediates'], **kw)
+          _, st = _linen_mha(H, D, params).apply({'params': params}, jnp.asarray(xin), mutable=['intermediates'], **kw)
           return np.asarray(st['intermediates']['attention_weights'][0])
         m = _nnx_mha(F, H, D, params, decode=False)
         m(jnp.asarray(xin), **kw)
         return np.asarray(m.attention_weights.value[0])
 
-      P = {n_: (np.asarray(v['kernel'], np.float64), np.asarray(v['bias'], np.float64)) for n_, v in params.items()}
+      P = {n_: (np.asarray(v['kernel'], np.float64), np.asarray(v['bias'], np.float64)) for n_, v in params.items() if 'kernel' in v}
       q = np.einsum('btf,fhd->bthd', xin.astype(np.float64), P['query'][0]) + P['query'][1]
       k = np.einsum('btf,fhd->bthd', xin.astype(np.float64), P['key'][0]) + P['key'][1]
+      if 'query_ln' in params:  # normalize_qk: queries through query_ln, keys through key_ln
+        q = _np_layernorm(q, params['query_ln']['scale'])
+        k = _np_layernorm(k, params['key_ln']['scale'])
       r = call(run)
     else:
       q = rs.normal(0, 1, (B, Lq, H, D)).astype(np.float32)
@@ -1514,41 +1550,55 @@ def check_weights(ctx, batch, cases):
     err = float(np.abs(w - want).max())
     leak = bool((w[~allowed] != 0).any())
     if leak or not err <= TOL:
-      ctx.violation('attn-weights-wrong', f'{api} attention weights: {"non-zero weight at a masked position; " if leak else ""}max deviation {err:.3g} from softmax(q.k/sqrt(d)+bias) over the allowed positions (tolerance {TOL})', case)
+      ctx.violation('attn-weights-wrong', f'{api} attention weights: {"non-zero weight at a masked position; " if leak else ""}max deviation {err:.3g} from softmax(q.k/sqrt(d)+bias) over the allowed positions{' (q, k through query_ln / key_ln)' if via_module and case.get('qk_norm') else ''} (tolerance {TOL})', case)
 
 
 def gen_mhaagree_cases(rng, thorough):
   cases = []
   pal = shared_pal(rng, thorough, 'attn')
-  for i in range(6 if not thorough else 300):
-    B, T, F, H, D = rng.choice(pal)
+  for i in range(8 if not thorough else 300):
+    B, T, F, H, D = rng.choice([p_ for p_ in pal if p_[4] >= 2]) if i % 2 == 0 else rng.choice(pal)
     cases.append({'kind': 'mha-agree', 'B': B, 'T': T, 'F': F, 'H': H, 'D': D, 'pseed': rng.randrange(10**6),
                   'mask': [[[1 if (j == i_ or rng.random() < 0.6) else 0 for j in range(T)] for i_ in range(T)] for _ in range(B)],
-                  'use_bias': rng.random() < 0.5, 'cross': rng.random() < 0.4})
+                  'use_bias': rng.random() < 0.5, 'cross': i % 4 == 1, 'qk_norm': D >= 2 and i % 2 == 0, 'decode': i % 4 == 2})
   return cases
 
 
 def check_mhaagree(ctx, batch, cases):
+  """Linen MultiHeadDotProductAttention vs nnx.MultiHeadAttention with the same, fully randomised parameters
+  (incl. distinct query_ln / key_ln scales when normalize_qk), whole-sequence and step-by-step decode."""
   for case in cases:
     B, T, F, H, D = case['B'], case['T'], case['F'], case['H'], case['D']
     rs = np.random.default_rng(case['pseed'])
-    params = _mha_params(F, H, D, case['pseed'], integer=False)
+    qk, dec = case.get('qk_norm', False), case.get('decode', False)
+    params = _mha_params(F, H, D, case['pseed'], integer=False, qk_norm=qk)
     x = rs.normal(0, 1, (B, T, F)).astype(np.float32)
     z = rs.normal(0, 1, (B, T, F)).astype(np.float32)
-    kw = {'mask': jnp.asarray(np.array(case['mask'], np.float32)[:, None])}
-    if case['use_bias']:
-      kw['attention_bias'] = jnp.asarray(rs.normal(0, 1, (B, H, T, T)).astype(np.float32))
-    inputs = (jnp.asarray(x), jnp.asarray(z)) if case['cross'] else (jnp.asarray(x),)
+    mask = np.array(case['mask'], np.float32)[:, None]  # [B,1,T,T]
+    bias = rs.normal(0, 1, (B, H, T, T)).astype(np.float32) if case['use_bias'] else None
     ctx.case(case, nontrivial=True)
-    ctx.count('mha_agree', f"{'cross' if case['cross'] else 'self'}{'-bias' if case['use_bias'] else ''}")
-    ra = call(lambda: np.asarray(_mha_run('linen', F, H, D, params, inputs, **kw)))
-    rb = call(lambda: np.asarray(_mha_run('nnx', F, H, D, params, inputs, **kw)))
+    ctx.count('mha_agree', f"{'decode' if dec else 'cross' if case['cross'] else 'self'}{'-bias' if bias is not None else ''}{'-qknorm' if qk else ''}")
+    if dec:
+      def step_kw(t):
+        kw = {'mask': jnp.asarray(mask[:, :, t : t + 1, :])}
+        if bias is not None:
+          kw['attention_bias'] = jnp.asarray(bias[:, :, t : t + 1, :])
+        return kw
+      ra = call(lambda: _mha_decode('linen', F, H, D, params, x, step_kw))
+      rb = call(lambda: _mha_decode('nnx', F, H, D, params, x, step_kw))
+    else:
+      kw = {'mask': jnp.asarray(mask)}
+      if bias is not None:
+        kw['attention_bias'] = jnp.asarray(bias)
+      inputs = (jnp.asarray(x), jnp.asarray(z)) if case['cross'] else (jnp.asarray(x),)
+      ra = call(lambda: np.asarray(_mha_run('linen', F, H, D, params, inputs, **kw)))
+      rb = call(lambda: np.asarray(_mha_run('nnx', F, H, D, params, inputs, **kw)))
     if ra[0] != 'ok' or rb[0] != 'ok':
-      ctx.violation('mha-agree-raises', f'attention layer raised {ra[1] if ra[0] != "ok" else rb[1]}', case)
+      ctx.violation('mha-agree-raises', f'attention layer raised {ra[1] if ra[0] != "ok" else rb[1]} (normalize_qk={qk}, decode={dec})', case)
       continue
     err = float(np.abs(ra[1] - rb[1]).max()) if ra[1].shape == rb[1].shape else float('inf')
     if not err <= TOL:
-      ctx.violation('linen-nnx-attention-disagree', f'Linen MultiHeadDotProductAttention and nnx.MultiHeadAttention with the same parameters differ by {err:.3g} (tolerance {TOL})', case)
+      ctx.violation('linen-nnx-attention-disagree', f'Linen MultiHeadDotProductAttention and nnx.MultiHeadAttention with the same parameters (normalize_qk={qk}, {"decode" if dec else "whole sequence"}) differ by {err:.3g} (tolerance {TOL})', case)
 
 
 # ------------------------------------------------------------------------------------------------
